@@ -245,7 +245,7 @@ class Numeric:
                 if len(ctx.cov['samples']) < 8 and o.kind in ('ARITH', 'CAST', 'INV', 'OOR'):
                     ctx.cov['samples'].append({'obligation': oid, 'at': o.span, 'verdict': 'discharged', 'contexts': o.ok})
                 continue
-            if o.kind in ('PANIC', 'UNWRAP') and o.causes and all(c in allowed_causes for c in o.causes):
+            if o.kind in ('PANIC', 'UNWRAP') and o.causes and all(_cause_allowed(c, allowed_causes) for c in o.causes):
                 ctx.cov['designated'] += 1
                 continue
             if oid in getattr(ctx, 'auto_by_classes', {}):
@@ -268,6 +268,16 @@ class Numeric:
         ctx.cov['notes'].extend(f'{k} x{v}' for k, v in I.notes.items())
         ctx.cov['std_rows_used'] = len(I.models_used)
         return nobl
+
+
+def _cause_allowed(c, allowed):
+    """a designated cause, or a helper that only ever created its error inside the dynamic extent of a designated function
+    (validate_date -> a private validate_year extracted from it)"""
+    if c in allowed:
+        return True
+    from .models import CAUSE_STACKS
+    stacks = CAUSE_STACKS.get(c)
+    return bool(stacks) and all(any(f in allowed for f in st_) for st_ in stacks)
 
 
 def construction_entries(facts, adt_path):
